@@ -158,6 +158,17 @@ func idxSeq(v ssa.Value, seen map[ssa.Value]bool, d int, env *idxEnv) [][]string
 		}
 		return [][]string{{"param:" + x.Name()}}
 	case *ssa.UnOp:
+		// an element of a local collection of index slices (queries = append(queries, q) ... queries[i]):
+		// any of the values appended to it
+		if ia, ok := x.X.(*ssa.IndexAddr); ok {
+			if els, ok := appendedElems(ia.X, map[ssa.Value]bool{}, 0); ok && len(els) > 0 {
+				var out [][]string
+				for _, el := range els {
+					out = append(out, idxSeq(el, seen, d+1, env)...)
+				}
+				return out
+			}
+		}
 		// load of a local or captured cell: union of what is stored into it
 		cell := x.X
 		if fv, ok := cell.(*ssa.FreeVar); ok {
@@ -237,4 +248,49 @@ func seqsString(s [][]string) string {
 		parts = append(parts, "["+strings.Join(x, " ")+"]")
 	}
 	return strings.Join(parts, " | ")
+}
+
+// appendedElems: the element values appended (one literal element at a time) to a local slice that starts
+// empty; ok=false when the slice has any other source.
+func appendedElems(v ssa.Value, seen map[ssa.Value]bool, d int) ([]ssa.Value, bool) {
+	if d > 12 {
+		return nil, false
+	}
+	if seen[v] {
+		return nil, true
+	}
+	seen[v] = true
+	switch x := v.(type) {
+	case *ssa.Const:
+		return nil, x.Value == nil
+	case *ssa.Phi:
+		var out []ssa.Value
+		for _, e := range x.Edges {
+			els, ok := appendedElems(e, seen, d+1)
+			if !ok {
+				return nil, false
+			}
+			out = append(out, els...)
+		}
+		return out, true
+	case *ssa.MakeSlice:
+		if k, ok := constInt(x.Len); ok && k == 0 {
+			return nil, true
+		}
+	case *ssa.ChangeType:
+		return appendedElems(x.X, seen, d+1)
+	case *ssa.Call:
+		if b, ok := x.Call.Value.(*ssa.Builtin); ok && b.Name() == "append" && len(x.Call.Args) == 2 {
+			base, ok := appendedElems(x.Call.Args[0], seen, d+1)
+			if !ok {
+				return nil, false
+			}
+			els, ok := literalElems(x.Call.Args[1])
+			if !ok {
+				return nil, false
+			}
+			return append(base, els...), true
+		}
+	}
+	return nil, false
 }
